@@ -69,6 +69,11 @@ func doubleWalkDiff(ctx context.Context, changeFn ChangeFunc, a, b walkerFn, fil
 
 		f1, f2 *currentPath
 		rmdir  string
+
+		// paths of non-directories this diff has handed to changeFn: a hard
+		// link that names one of them has to be made again even if it looks
+		// unchanged, the old link still points to the file that was replaced
+		replaced = map[string]struct{}{}
 	)
 	g.Go(func() error {
 		defer close(c1)
@@ -138,6 +143,11 @@ func doubleWalkDiff(ctx context.Context, changeFn ChangeFunc, a, b walkerFn, fil
 				if err != nil {
 					return err
 				}
+				if same && f2copy.stat.Linkname != "" && os.FileMode(f2copy.stat.Mode)&os.ModeType == 0 {
+					if _, ok := replaced[f2copy.stat.Linkname]; ok {
+						same = false
+					}
+				}
 				var f1next *currentPath
 				if f1.stat.IsDir() && !f2copy.stat.IsDir() {
 					rmdir = f1.path + string(filepath.Separator)
@@ -165,6 +175,9 @@ func doubleWalkDiff(ctx context.Context, changeFn ChangeFunc, a, b walkerFn, fil
 				if same {
 					continue loop0
 				}
+			}
+			if k != ChangeKindDelete && !f.IsDir() {
+				replaced[p] = struct{}{}
 			}
 			if err := changeFn(k, p, &StatInfo{f}, nil); err != nil {
 				return err
